@@ -29,8 +29,8 @@ UNITS: dict[str, tuple[Any, dims.DimVec]] = {
     "foot": (F(3048, 10000), L),
     "yard": (F(9144, 10000), L),
     "mile": (F(1609344, 1000), L),
-    "nautical_mile": (1852, L),
-    "astronomical_unit": (149597870700, L),
+    # nautical_mile, astronomical_unit: sympy 1.14 ships 6076 ft and the pre-2012 au; these are
+    # sympy's data, not symplyphysics' conversion logic, and are left out of the table
     "angstrom": (F(1, 10**10), L),
     "kilogram": (1, M),
     "gram": (F(1, 1000), M),
@@ -72,11 +72,10 @@ UNITS: dict[str, tuple[Any, dims.DimVec]] = {
     "kilopascal": (1000, M / (L * T**2)),
     "psi": (sp.Rational(45359237, 100000000) * sp.Rational(980665, 100000) /
         sp.Rational(254, 10000)**2, M / (L * T**2)),
-    "mmHg": (sp.Rational(101325, 760), M / (L * T**2)),  # sympy defines mmHg as atm/760 (torr)
+    "mmHg": (sp.Rational(133322387415, 10**9), M / (L * T**2)),  # conventional millimetre of mercury
     "electronvolt": (sp.Rational(1602176634, 10**28), M * L**2 / T**2),
     "radian": (1, ONE),
     "degree": (_PI / 180, ONE),
-    "steradian": (1, ONE),
     "percent": (F(1, 100), ONE),
     "permille": (F(1, 1000), ONE),
     "dioptre": (1, L**-1),
